@@ -353,6 +353,15 @@ kf("C06", "C06-switch-selector-unsupported", "switch case selectors that are con
 kf("C06", "C06-matrix-scalar-constructor", "matCxR<f32>(scalars...) and abstract-literal vector constructors stored directly produce malformed SPIR-V (a vector constructed from all matrix scalars; store type mismatch)", _c06["spirv-constructor"])
 kf("C06", "C06-extractBits-abstract-literal", "extractBits on a bare negative literal is folded without sign extension (the abstract literal is treated as unsigned)", _c06["fold-other"])
 kf("C06", "C06-compile-time-context-syntax", "`const_assert (a + b) == c;` (assertion starting with a parenthesis) and `array<u32, 1u | 2u>` (bit-or in a template argument) are rejected by the parser", _c06["syntax"])
+kf("C06", "C06-non-representable-value-accepted", "no representability check anywhere: an abstract value that does not fit the type its context requires is accepted and wrapped / saturated instead of being a shader-creation error — `const x: u32 = -1;`, `let x: i32 = 2147483648;`, `const x: i32 = 2147483647 + 1;`, `u32(-1)`, `vec2<u32>(-1, 0u)`, `f(4294967296)`, `const a = 2 - 5; const x: u32 = a;`, `const x: f32 = 1e39;`; out-of-range suffixed literals (`2147483648i`, `4294967296u`, `1e39f`), AbstractInt overflow (`9223372036854775807 + 1`) and f32 constant-expression overflow (`3e38f * 10f`) are accepted too",
+   ["C06|representable|%s|%s|accepted" % (c, t) for c in ("modconst", "fnconst", "let", "var", "private-init", "conversion", "vector-component", "named-abstract", "argument") for t in ("i32", "u32", "f32")] +
+   ["C06|representable|literal|%s|accepted" % t for t in ("i32", "u32", "f32", "abstract-int")] +
+   ["C06|representable|abstract-arithmetic|abstract-int|accepted", "C06|representable|concrete-overflow|f32|accepted", "C06|representable|concrete-overflow(fn)|f32|accepted"])
+# C06, families F6c2 (chains through named constants) and F6c3 (structural folds): triaged by kf_c06x_triage.py
+# (findings = family x attribution x failure category; descriptions and keys in kf_c06x_keys.json)
+_c06x = json.load(open("kf_c06x_keys.json"))
+for _id in sorted(_c06x):
+    kf("C06", _id, _c06x[_id]["what"], _c06x[_id]["keys"])
 
 # ---------------------------------------------------------------- C14 (overrides); exact key lists in kf_c14_keys.json
 _c14 = json.load(open("kf_c14_keys.json"))
